@@ -60,6 +60,17 @@ SkipFence ==
         /\ moSeen' = moSeen \cup {<<ev'.site, "none">>}
   /\ UNCHANGED l
 
+\* release of a locked accessor: the code under test does not reset the slot (its next operation is not a slot store)
+SkipReset ==
+  /\ l <= Len(Tr)
+  /\ Tr[l].k \notin {"reset", "end"}
+  /\ LET t == Tr[l].t
+     IN /\ pc[t] = "rl_reset"
+        /\ ~(Tr[l].k = "store" /\ Tr[l].loc = "slot")
+        /\ RlReset(t, LAMBDA site : "none")
+        /\ moSeen' = moSeen \cup {<<"release_slot_store", "none">>}
+  /\ UNCHANGED l
+
 \* at the end of an execution the pending fences of threads that produced no further event are skipped too
 SkipFenceAtEnd ==
   /\ l <= Len(Tr) /\ Tr[l].k = "end"
@@ -82,7 +93,7 @@ Reset ==
   /\ l' = l + 1
   /\ UNCHANGED moSeen
 
-TNext == (Consume \/ SkipFence \/ SkipFenceAtEnd \/ End \/ Reset) /\ Progress /\ (l' > Len(Tr) => TLCSet(2, moSeen'))
+TNext == (Consume \/ SkipFence \/ SkipReset \/ SkipFenceAtEnd \/ End \/ Reset) /\ Progress /\ (l' > Len(Tr) => TLCSet(2, moSeen'))
 
 TSpec == TInit /\ [][TNext]_tvars
 
